@@ -344,6 +344,15 @@ func newCustomCase(r *rand.Rand) *charCase {
 	if same {
 		setSameFlag(c, true)
 	}
+	// a step (metadata for controllers; no part of storing a value), often one the bounds are not multiples of — drawn
+	// from a generator of its own so that the other choices stay as they were
+	if sr := rand.New(rand.NewSource(r.Int63())); kind == "float64" && sr.Intn(3) > 0 {
+		c.StepValue = []float64{0.1, 1, 3, 0.25, 7.5, 0.3}[sr.Intn(6)]
+		desc += fmt.Sprintf(" step=%v", c.StepValue)
+	} else if kind == "int" && sr.Intn(3) > 0 {
+		c.StepValue = []int{1, 2, 3, 7, 10}[sr.Intn(5)]
+		desc += fmt.Sprintf(" step=%v", c.StepValue)
+	}
 	return &charCase{Desc: desc, C: c, Wrapper: wrapper, Tcb: "-", Same: same}
 }
 
